@@ -316,7 +316,9 @@ func ruleWipeAfterLastUse(c *Check, p *Prog, fns []*ssa.Function) {
 					if a == nil {
 						continue
 					}
-					if a.String() == buf.String() || p.DeepContains(a, func(t *Term) bool { return t.Op == "slice" && t.Args[0].String() == buf.String() || (t != a && t.String() == buf.String() && t.Op == "param") }, 2) {
+					if a.String() == buf.String() || p.DeepContains(a, func(t *Term) bool {
+						return t.Op == "slice" && t.Args[0].String() == buf.String() || (t != a && t.String() == buf.String() && t.Op == "param")
+					}, 2) {
 						// a value derived from the wiped buffer: only slices/aliases matter, not copies; a
 						// helper that returns buf[:n] aliases it
 						if aliasesBuffer(p, a, buf, 2) {
